@@ -939,6 +939,7 @@ def check_local_ownership(P, ctx):
     from .. import escape as ESC
     r9 = ctx.rule("C08.R9", "every object a function obtains from a creator is released, stored, returned or handed over on every path")
     E = ESC.Escape(P)
+    relmemo = {}
     allrel = set()
     for v in OWN_PAIRS.values():
         allrel |= v
@@ -1044,6 +1045,8 @@ def check_local_ownership(P, ctx):
                             st = st - {owned[0]}
                         elif any(ai < len(d.params) and E.escapes(d, ai) for d in defs):
                             st = st - {owned[0]}
+                        elif defs and all(ai in SUM.must_call_params(P, d, (OWN_PAIRS.get(cr) or set()) | (outc[cr][1] if cr in outc else set()), 0, _memo=relmemo) for d in defs):
+                            st = st - {owned[0]}        # a helper that releases this argument on every path (free_credentials_data)
                         elif name == "ut_realloc":
                             st = st - {owned[0]}
                     return st
